@@ -143,7 +143,7 @@ class IO:
                 nm["pos"] = list(pk) if isinstance(pk, list) else _axes(ndim)
             for key, feat in tr.features.items():
                 if feat["feature_type"] == "node" and key not in (tr.features.time_key, tr.features.tracklet_key, tr.features.lineage_key, tr.features.position_key) and not (isinstance(tr.features.position_key, list) and key in tr.features.position_key):
-                    if key == "score" and not any("score" in dd for _, dd in tr.graph.nodes(data=True)):
+                    if key == "score" and not any(dd.get("score") is not None for _, dd in tr.graph.nodes(data=True)):
                         continue
                     nm[key] = key
             return import_from_geff(
